@@ -14,7 +14,25 @@ func init() { props["C25"] = c25 }
 
 func c25(c *Ctx) {
 	c25Closure(c)
-	c.Rule += " || SET ALGEBRA: random finite/co-finite sets over universes 0..u (u<=12, densities 0..1, plus empty/full edge cases) fed to container.Merge/Intersect; non-trivial = both operands non-empty; distinct by (op, operands)"
+	c.Rule += " || BITSET: IntSet.BitSet(size) for finite/co-finite sets over universes at the 32-bit word boundaries (31..33, 63..65, 96, 128) and random sizes, every bit compared with membership || SET ALGEBRA: random finite/co-finite sets over universes 0..u (u<=12, densities 0..1, plus empty/full edge cases) fed to container.Merge/Intersect; non-trivial = both operands non-empty; distinct by (op, operands)"
+	// IntSet.BitSet at word boundaries: universes of 31..33, 63..65, 96, 128 elements and others
+	for i, nb := 0, c.N(400, 8000); i < nb; i++ {
+		size := []int{31, 32, 33, 63, 64, 65, 96, 128, 1 + c.Rng.Intn(140)}[c.Rng.Intn(9)]
+		p := []float64{0, 0.02, 0.2, 0.8, 1}[c.Rng.Intn(5)]
+		s := container.IntSet{Inverse: c.Rng.Intn(2) == 0, Set: sortedSubset(c.Rng, size-1, p)}
+		bs := s.BitSet(size)
+		var sb strings.Builder
+		for v := 0; v < size; v++ {
+			if bs.Get(v) {
+				sb.WriteByte('1')
+			} else {
+				sb.WriteByte('0')
+			}
+		}
+		c.Count(fmt.Sprintf("bitset size%%32==0: %v", size%32 == 0))
+		line := fmt.Sprintf("bitset %s %s %d", b2s(s.Inverse), ints(s.Set), size)
+		c.Case(line, sb.String(), line)
+	}
 	n := c.N(4000, 200000)
 	for i := 0; i < n; i++ {
 		u := 1 + c.Rng.Intn(12)
